@@ -392,6 +392,22 @@ pub fn tt_decompose(vector: &[f32], config: &TTConfig) -> Result<TTVector, TTErr
     let mut current_data = vector.to_vec();
     let mut left_rank = 1;
 
+    // The norms below square the components: a vector of magnitude 1e-23 underflows to
+    // norm 0 (every unfolding then has rank 0), one of magnitude 1e20 overflows. Such vectors
+    // are decomposed at unit scale and the scale is put back into the last core.
+    let max_abs = vector
+        .iter()
+        .filter(|x| x.is_finite())
+        .fold(0.0f32, |m, x| m.max(x.abs()));
+    let scale = if max_abs > 0.0 && !(1e-12..=1e12).contains(&max_abs) {
+        for x in &mut current_data {
+            *x /= max_abs;
+        }
+        max_abs
+    } else {
+        1.0
+    };
+
     // TT-SVD: sweep left to right
     for k in 0..n - 1 {
         let mode_size = config.shape[k];
@@ -399,7 +415,9 @@ pub fn tt_decompose(vector: &[f32], config: &TTConfig) -> Result<TTVector, TTErr
 
         let m = left_unfold_for_tt(&current_data, left_rank, mode_size);
         let svd_result = svd_truncated(&m, config.max_rank, config.tolerance)?;
-        let new_rank = svd_result.rank.min(config.max_rank);
+        // A (numerically) zero unfolding has rank 0; keep one zero-valued rank so that the
+        // train stays well formed instead of failing on an empty matrix in the next step.
+        let new_rank = svd_result.rank.min(config.max_rank).max(1);
         ranks.push(new_rank);
 
         let mut core_data = vec![0.0; left_rank * mode_size * new_rank];
@@ -438,7 +456,7 @@ pub fn tt_decompose(vector: &[f32], config: &TTConfig) -> Result<TTVector, TTErr
         for j in 0..last_mode_size {
             let idx = i * last_mode_size + j;
             if idx < current_data.len() {
-                last_core_data[i * last_mode_size + j] = current_data[idx];
+                last_core_data[i * last_mode_size + j] = current_data[idx] * scale;
             }
         }
     }
